@@ -316,6 +316,65 @@ func (g *genCtx) openCases() []ccase {
 	return out
 }
 
+// openTwoFaultCases: OPEN messages that are wrong in TWO places at once: a fixed field the decoder itself validates
+// (unsupported version, identifier 0) AND optional parameters that cannot be decoded (a parameter type other than
+// Capabilities, e.g. the Authentication Information of RFC 1771 speakers; a known capability whose value size its
+// definition rules out; a 4-octet AS capability of two bytes at the end of the message). Whatever fault the speaker names,
+// the message is malformed: an OPEN Message Error NOTIFICATION (any subcode) and a closed connection are due.
+func (g *genCtx) openTwoFaultCases() []ccase {
+	var out []ccase
+	type fixed struct {
+		name string
+		f    func(o *wire.Open)
+	}
+	var fixeds []fixed
+	for _, v := range []uint8{0, 3, 5, 255} {
+		v := v
+		fixeds = append(fixeds, fixed{fmt.Sprintf("version %d", v), func(o *wire.Open) { o.Version = v }})
+	}
+	fixeds = append(fixeds, fixed{"identifier 0", func(o *wire.Open) { o.ID = 0 }})
+	type opt struct {
+		name string
+		f    func(o *wire.Open)
+	}
+	badSize := func(code uint8, n int) opt {
+		return opt{fmt.Sprintf("capability %d with a value of %d bytes", code, n), func(o *wire.Open) {
+			o.Caps = append(without(o.Caps, code), wire.Capability{Code: code, Value: make([]byte, n)})
+		}}
+	}
+	opts := []opt{
+		{"optional parameter type 1 (authentication information)", func(o *wire.Open) {
+			o.OtherParams = append(o.OtherParams, wire.OptParam{Type: 1, Value: []byte{0, 1, 2, 3}})
+		}},
+		{"the only optional parameter has type 1", func(o *wire.Open) {
+			o.Caps, o.OtherParams = nil, []wire.OptParam{{Type: 1, Value: []byte{0}}}
+		}},
+		{"optional parameter type 255", func(o *wire.Open) { o.OtherParams = append(o.OtherParams, wire.OptParam{Type: 255}) }},
+		badSize(wire.CapCodeAddPath, 3), badSize(wire.CapCodeAddPath, 5), badSize(wire.CapCodeExtNextHop, 5),
+		{"4-octet AS capability with a value of 2 bytes as the last capability", func(o *wire.Open) {
+			o.Caps = append(o.Caps, wire.Capability{Code: wire.CapCodeAS4, Value: []byte{0, 0}}) // two of the four bytes
+		}},
+	}
+	for _, cut := range sess2.Cuts {
+		for _, fx := range fixeds {
+			for _, op := range opts {
+				c := g.cfg()
+				o := c.Open()
+				fx.f(o)
+				op.f(o)
+				if g.rng.IntN(4) == 0 {
+					o.CapsPerParam = true
+				}
+				e := &expect{Family: "open", Class: "two-faults", Allowed: allow(cut, wire.TypeOpen, true, 2, -1)}
+				cc := g.mk("open-two-faults", cut, c, o.Encode(), e, "OPEN with "+fx.name+" and "+op.name)
+				cc.Tags = []string{"open_two_faults"}
+				out = append(out, cc)
+			}
+		}
+	}
+	return out
+}
+
 // ---------------------------------------------------------------------------------------------
 // OPEN capability space (judged on survival, collateral and reconnect only: RFC 5492 lets a speaker
 // ignore capabilities it does not know or has not configured)
@@ -941,6 +1000,7 @@ func genCases(r *vf.Run) []ccase {
 	var out []ccase
 	out = append(out, g.headerCases(thorough)...)
 	out = append(out, g.openCases()...)
+	out = append(out, g.openTwoFaultCases()...)
 	out = append(out, g.openCapCases(thorough)...)
 	out = append(out, g.updateCases(r.N(20, 400))...)
 	out = append(out, g.attrSweep(r.N(2, 16))...)
